@@ -9,23 +9,23 @@ MsgJ(m) == [type |-> m.type, src |-> m.src, round |-> m.round, value |-> m.value
             just |-> SetToSeq(m.just)]
 GenInit == MCInit /\ hist = <<>>
 GenNext ==
-  \/ \E p \in Honest : Start(p) /\ UNCHANGED <<dlv, ntimeouts, ndup, nbyz, pc>>
+  \/ \E p \in Honest \ Silent : Start(p) /\ UNCHANGED <<dlv, ntimeouts, ndup, nbyz, pc, lost, phase, nwin>>
                        /\ hist' = Append(hist, [ev |-> "Start", p |-> p])
-  \/ \E p \in Honest : Inputs[p] # 0 /\ Input(p, Inputs[p]) /\ UNCHANGED <<dlv, ntimeouts, ndup, nbyz, pc>>
+  \/ \E p \in Honest : Inputs[p] # 0 /\ Input(p, Inputs[p]) /\ UNCHANGED <<dlv, ntimeouts, ndup, nbyz, pc, lost, phase, nwin>>
                        /\ hist' = Append(hist, [ev |-> "Input", p |-> p, v |-> Inputs[p]])
   \/ \E p \in Honest : /\ st[p].round < MaxRound /\ ntimeouts < MaxTimeouts
-                       /\ Timeout(p) /\ ntimeouts' = ntimeouts + 1 /\ UNCHANGED <<dlv, ndup, nbyz, pc>>
+                       /\ Timeout(p) /\ ntimeouts' = ntimeouts + 1 /\ UNCHANGED <<dlv, ndup, nbyz, pc, lost, phase, nwin>>
                        /\ hist' = Append(hist, [ev |-> "Timeout", p |-> p])
   \/ \E p \in Honest : \E m \in msgs :
         /\ m.round <= MaxRound
         /\ \/ (m \notin dlv[p] /\ ndup' = ndup)
            \/ (m \in dlv[p] /\ ndup < DupBudget /\ ndup' = ndup + 1)
-        /\ Deliver(p, m) /\ dlv' = [dlv EXCEPT ![p] = @ \cup {m}] /\ UNCHANGED <<ntimeouts, nbyz, pc>>
+        /\ Deliver(p, m) /\ dlv' = [dlv EXCEPT ![p] = @ \cup {m}] /\ UNCHANGED <<ntimeouts, nbyz, pc, lost, phase, nwin>>
         /\ hist' = Append(hist, [ev |-> "Deliver", p |-> p, m |-> MsgJ(m)])
   \/ /\ Byz # {} /\ nbyz < MaxByz
      /\ \E m \in Repertoire : m \notin msgs /\ ByzSend(m) /\ nbyz' = nbyz + 1
                                /\ hist' = Append(hist, [ev |-> "ByzSend", m |-> MsgJ(m)])
-     /\ UNCHANGED <<dlv, ntimeouts, ndup, pc>>
+     /\ UNCHANGED <<dlv, ntimeouts, ndup, pc, lost, phase, nwin>>
 GenSpec == GenInit /\ [][GenNext]_<<mcvars, hist>>
 AllDecided == \A p \in Honest : st[p].decided
 Emit == ~(AllDecided \/ Len(hist) >= GenLen) \/ PrintT("@@SCHED@@" \o ToJson(hist))
